@@ -19,6 +19,7 @@ CLASSES = [
     "bad_port_ref",
     "bad_member",
     "extra_member",
+    "pair_foreign_bundle",
     "bad_index",
     "empty_slice",
     "orphan_other_module",
@@ -317,6 +318,31 @@ def _extra_member(ch, ops, d, hier, top):
         return [sop], node
 
     return _replace_live_x(ch, ops, d, hier, pred, make)
+
+
+def _pair_foreign_bundle(ch, ops, d, hier, top):
+    """A pair (instance-bundle) port takes an instance of *another* bundle type: the members of the
+    pair's own bundle plus one more.  (The extra member has nowhere to go.)"""
+    cands = []
+    for i in live_conn_ops(ops, d, hier):
+        op = ops[i]
+        info = d.mods[op[1]].insts.get(op[2])
+        if info and info["kind"] == "pair" and op[4][0] == "b":
+            cands.append(i)
+    if not cands:
+        return None
+    i = ch.pick(cands, "site")
+    op = ops[i]
+    mid = op[1]
+    bid = d.mods[mid].insts[op[2]].get("bid", refmodel.DIFF)
+    b = d.bundles[bid]
+    nb = 7000 + len(ops)
+    sigs = [[n_, w_, (b.get("kinds") or {}).get(n_, "s")] for n_, w_ in b["sigs"].items()] + [["zcm", 1, "s"]]
+    bname = f"fb{len(ops)}"
+    nop = copy.deepcopy(op)
+    nop[4] = ["b", bname]
+    site = f"{'top' if mid == hier[-1] else 'deep'}:pair:b"
+    return [["bundle", nb, f"BX{nb}", sigs, []]] + ops[:i] + [["bun", mid, bname, nb, False, False], nop] + ops[i + 1 :], site
 
 
 def _bad_index(ch, ops, d, hier, top):
